@@ -84,10 +84,15 @@ def prog_line(op, p):
         if p['route'] == 'param':
             continue
         if m not in [t[0] for t in tbl]:
-            tbl.append((m, core.sig_line(core.D(p['callees'][k], fn=10 + k))))
+            # self.m_k is a bound method: its signature names the bound method object (callable 1000 + that of the function)
+            tbl.append((m, core.sig_line(core.D(p['callees'][k], fn=(1010 if p['route'] == 'self' else 10) + k))))
     if p['route'] == 'param':
         tbl.append(('R%d' % core.NAMES.id('cb'), core.sig_line(core.D(p['callees'][0], fn=10))))
     pm = 'A(M%d.%d)' % (core.NAMES.id('functools'), core.NAMES.id('partial'))
+    if op == 'pauto' and p['route'] == 'self':
+        op = 'pautom'             # retrieved through an instance: autoforwards_method
+    elif op == 'pauto' and p['route'] == 'param':
+        op = 'pautop 1 _ 2'       # functools.partial(wrapper, g0): autoforwards_partial, one bound positional, partial object = callable 2
     return '%s %s %d %s %s %s' % (op, pm, len(tbl), ' '.join('%s %s' % t for t in tbl), core.sig_line(own_desc(p)), ' '.join(toks))
 
 
@@ -158,7 +163,12 @@ def real_pauto(req):
     p = req[1]
     mod, fname = load_prog(p)
     try:
-        return core.run_real(sigtools.signature, mod.target)
+        a = core.run_real(sigtools.signature, mod.target)
+        if p['route'] == 'self' and a[0] == 'ok':
+            # plain retrieval names the bound method object (1001), discovery the function (1): both are "the wrapper"
+            w = lambda f: 1 if f == 1001 else f      # noqa
+            a = a[:2] + (tuple((k, tuple(w(f) for f in v)) for k, v in a[2]), tuple(sorted((w(f), d) for f, d in a[3]))) + a[4:]
+        return a
     finally:
         progs.unload(fname)
 
